@@ -75,7 +75,16 @@ def search_and_judge(ctx, st, case, pat, built, atol, hints=(None, None, None), 
          "pattern_positions": np.round(ppos, 5).tolist(), "atol": atol, "n_atoms": len(atoms), "planted": built["planted"], "crossings": built["crossings"],
          "poses": built["poses"], "decoys": built["decoy_groups"], "hints": list(hints), "schedule": case.get("schedule")}
     try:
-        res = mofun.find_pattern_in_structure(atoms, patoms, axisp1_idx=hints[0], axisp2_idx=hints[1], opoint_idx=hints[2], atol=atol)
+        # call forms: the documented default tolerance left out, hints left out when there are none, verbose output switched on
+        kw = {} if (atol == 0.05 and case["s"] % 2) else {"atol": atol}
+        if hints != (None, None, None) or case["s"] % 3 == 0:
+            kw.update(axisp1_idx=hints[0], axisp2_idx=hints[1], opoint_idx=hints[2])
+        if case["s"] % 5 == 0:
+            kw["verbose"] = True
+            st.count("searches_with_verbose_output")
+        if "atol" not in kw:
+            st.count("searches_relying_on_the_default_tolerance")
+        res = mofun.find_pattern_in_structure(atoms, patoms, **kw)
     except Exception as e:
         if type(e).__name__ == "PostBroken":
             raise
@@ -183,6 +192,8 @@ def requirements(stats, tier):
     if stats.get("occurrences_after_inplace_edit") < (300 if tier == "quick" else 20000) or stats.nseen("inplace_edit") < 4:
         need.append("searches of an object edited in place since its last search: %d clear occurrences, edit kinds %s" %
                     (stats.get("occurrences_after_inplace_edit"), sorted(stats.sets.get("inplace_edit", []))))
+    if stats.get("searches_with_verbose_output") < 20 or stats.get("searches_relying_on_the_default_tolerance") < 20:
+        need.append("call forms: %d verbose searches, %d relying on the default tolerance" % (stats.get("searches_with_verbose_output"), stats.get("searches_relying_on_the_default_tolerance")))
     if stats.get("searches") < (500 if tier == "quick" else 45000):
         need.append("too few searches: %d" % stats.get("searches"))
     if stats.get("contract_eval.C01.in_domain") < stats.get("searches"):
